@@ -388,6 +388,23 @@ def uploads_paging(chk, gwbin):
                 chk.fail("c08:list-uploads-paging", "ListMultipartUploads followed with max-uploads=%d over %d uploads (several per key): %s after %d pages; %d uploads seen, %d distinct, %d never shown" % (
                     mx, len(want), "ended" if ended else "did not end", pages, len(seen), len(set(seen)), len(set(want) - set(seen))),
                     {"max_uploads": mx, "uploads": want, "seen": seen[:30], "pages": pages, "ended": ended})
+        # an upload in progress is not an object, whatever the request form: HEAD / GET with partNumber on a key that has an upload in
+        # progress and no object, and on a key that has both (the object's own size, not a part of the unrelated upload)
+        r0 = cl.req("POST", "/bkp/only-upload", query={"uploads": ""}); u0 = r0.xml().findtext("UploadId") if r0.status == 200 else ""
+        cl.req("PUT", "/bkp/only-upload", query={"partNumber": "1", "uploadId": u0}, body=b"sixteen byte part")
+        cl.req("PUT", "/bkp/both", body=b"the object")
+        r1 = cl.req("POST", "/bkp/both", query={"uploads": ""}); u1 = r1.xml().findtext("UploadId") if r1.status == 200 else ""
+        cl.req("PUT", "/bkp/both", query={"partNumber": "1", "uploadId": u1}, body=b"a part of another length")
+        for meth in ("HEAD", "GET"):
+            ra = cl.req(meth, "/bkp/only-upload", query={"partNumber": "1"})
+            rb = cl.req(meth, "/bkp/both", query={"partNumber": "1"})
+            chk.case(("in-progress-as-object", meth), True); chk.traces += 1; chk.count("in-progress-as-object:%s:%d/%d" % (meth, ra.status, rb.status))
+            if ra.status == 200 or (rb.status == 200 and rb.headers.get("content-length") != "10"):
+                chk.fail("c08:in-progress-part-served-by-head" if meth == "HEAD" else "c08:in-progress-part-served-by-get",
+                         "%s ?partNumber=1 on a key with an upload in progress and no object answers %d (Content-Length %s); on a key with a 10-byte object and an unrelated upload in progress %d with Content-Length %s" % (
+                             meth, ra.status, ra.headers.get("content-length"), rb.status, rb.headers.get("content-length")),
+                         {"method": meth, "key_without_object": (ra.status, ra.headers.get("content-length")), "key_with_object": (rb.status, rb.headers.get("content-length"))})
+        cl.req("DELETE", "/bkp/only-upload", query={"uploadId": u0}); cl.req("DELETE", "/bkp/both", query={"uploadId": u1})
         for k, u in ups: cl.req("DELETE", "/bkp/" + k, query={"uploadId": u})
         chk.tie("gateway still running after the paged upload listings", g.alive(), g.log_tail())
 
